@@ -167,7 +167,7 @@ func c20Histories(thorough bool) []c20History {
 			return err
 		}),
 		walletHistory("ScanAddresses/deterministic", oneDet, func(s *wallet.Service) error {
-			_, err := s.ScanAddresses("a.wlt", nil, 2, fakeTF{"last"})
+			_, err := s.ScanAddresses("a.wlt", nil, 2, fakeTF{mode: "last"})
 			return err
 		}),
 		walletHistory("UpdateWalletLabel", twoWallets, func(s *wallet.Service) error {
@@ -260,7 +260,7 @@ func c20Histories(thorough bool) []c20History {
 			return err
 		}),
 		walletHistory("ScanAddresses/bip44-encrypted", bipEnc, func(s *wallet.Service) error {
-			_, err := s.ScanAddresses("a.wlt", nil, 3, fakeTF{"last"})
+			_, err := s.ScanAddresses("a.wlt", nil, 3, fakeTF{mode: "last"})
 			return err
 		}),
 		kvHistory("kvstorage/add-to-large-store", kvBig, func(m *kvstorage.Manager) error {
